@@ -12,6 +12,12 @@ CHECKS = {
          'sidecar contracts + AST-to-z3 verification conditions; layer lemmas and composition over opaque layer contracts; exhaustive enumeration of finite tables'),
  'C03': ('proof', "Inverse pairs proved on the code's own tables and formulas (independent of the specification): AES S-box tables (E), ShiftRows/MixColumns/SubBytes pairs, AddRoundKey involution, DES IP/IPinv, Serpent _S/_Sinv (8 boxes), _IP/_FP, _L/_Linv, Threefish MIX/MIXinv for every rotation constant and pi/piinv, Salsa/ChaCha index maps (E) - all for every state value (L). Cipher-level round trips dec(enc(B))==B==enc(dec(B)) for AES-128/192/256, DES, TDEA (all key forms), Serpent, Threefish-256/512/1024 with symbolic key, tweak and block are lemmas over the layer contracts plus those inverse lemmas (L). rol/ror exactness and mutual inversion for widths up to 128 (quick) is bounded in width (B).",
          'sidecar contracts + AST-to-z3 verification conditions; round trips as lemmas over layer contracts with proved inverse lemmas applied as rewrites'),
+ 'C06': ('proof', "Salsa20/ChaCha quarter rounds, row/column/double rounds and the core for every even round count against the specifications for all 512-bit states (L); initial-state layout for 128/256-bit keys (L); the inductive step of the keystream loop for an ARBITRARY block index in [0,2^64) - counter words including the carry into the high word (I); RC4 PRGA step on an arbitrary 256-byte state (I). Bounded stand-ins (B): enc/dec/prefix for messages up to 130 bytes with symbolic key/nonce/message, RC4 key schedule for key lengths {1,2,3,5,16,255,256}, RC4 continuity over 1-3 pieces on an arbitrary state.",
+         'sidecar contracts + AST-to-z3 verification conditions; loop-body (inductive step) obligations; GF(2)-affine canonical form'),
+ 'C15': ('proof', "crc32_fix hits every 32-bit target from every register state (all 2^64 pairs) - an XOR-linear identity decided by the GF(2)-affine normaliser (L); inductive step of the table-driven byte loop == 8 bitwise division steps for arbitrary register/byte (I, widths 8/16/32/64); backward computation inverts forward bytes (L); import-time tables (E). Bounded (B): crc_table for 19 polynomials of widths 8..64 incl. order independence, crc/crc32/fixers on messages up to 16-40 bytes with symbolic contents, targets and positions.",
+         'sidecar contracts + AST-to-z3 verification conditions; GF(2)-affine normaliser for the linear identities; loop-body contracts'),
+ 'C16': ('proof', "Poly contracts from the coefficient-list model of the property, evaluated on the real poly.py with symbolic coefficients of the whole ring for each dimension pair in a stated list (bounded in dimension: class B; rings k in {0,1,2,3,8,32,64}). One recorded known finding (slice beyond the dimension is zero-padded).",
+         'sidecar contracts + AST-to-z3 verification conditions per dimension (bounded in dimension, complete in coefficient values)'),
  'C08': ('proof', "Bits operator contracts taken from the (value,size) model in the property, evaluated on the real bits.py through the AST evaluator with symbolic values of the whole range for each concrete operand size in a stated list (bounded in width: class B), plus exhaustive enumeration (E) of int-valued selection assignment. Complete in values, bounded in width.",
          'sidecar contracts + AST-to-z3 verification conditions per operand size (bounded in width, complete in values)'),
 }
